@@ -130,6 +130,7 @@ type Case struct {
 	T       *TVJ     `json:"t,omitempty"`
 	A       *TVJ     `json:"a,omitempty"`
 	B       *TVJ     `json:"b,omitempty"`
+	Rep     int      `json:"rep,omitempty"`     // base in-memory representation of empty slices / maps (see rep)
 	Reuse   bool     `json:"reuse,omitempty"`   // index: the one long-lived *gnmi.Path object, refilled in place
 	SamePtr bool     `json:"sameptr,omitempty"` // equal: Equal(a, a) on one pointer
 	Group   [][]BS   `json:"group,omitempty"`   // query: all queries of the one client.Query; Q = Group[GI]
@@ -142,17 +143,55 @@ type Case struct {
 // ---------------------------------------------------------------------------
 // building the real messages
 
+// rep selects the in-memory representation of everything EMPTY in the
+// messages and Go values built below.  protobuf does not distinguish a nil
+// slice / map from an allocated empty one (proto.Equal, identical wire bytes),
+// Go does.  Bits: repElem Path.Elem, repElement Path.Element, repKey
+// PathElem.Key, repList ScalarArray.Element / []string / []interface{} /
+// client.Path, repBytes every []byte.  A set bit means "allocated, length 0"
+// where the plain construction gives nil, and nil where it gives an
+// allocated empty value.
+var rep int
+
+const (
+	repElem = 1 << iota
+	repElement
+	repKey
+	repList
+	repBytes
+	repAll = 1<<iota - 1
+)
+
+func mkBytes(s BS, explicitNil bool) []byte {
+	if len(s) > 0 {
+		return []byte(s)
+	}
+	if explicitNil != (rep&repBytes != 0) {
+		return nil
+	}
+	return []byte{}
+}
+
 func mkPath(p *PathJ, r *vh.Rand) *gpb.Path {
 	if p == nil || p.Nil {
 		return nil
 	}
 	out := &gpb.Path{Target: string(p.Target), Origin: string(p.Origin)}
+	if len(p.Elems) == 0 && rep&repElem != 0 {
+		out.Elem = make([]*gpb.PathElem, 0, 4)
+	}
+	if len(p.Element) == 0 && rep&repElement != 0 {
+		out.Element = []string{}
+	}
 	for _, e := range p.Elems {
 		if e.Nil {
 			out.Elem = append(out.Elem, nil)
 			continue
 		}
 		pe := &gpb.PathElem{Name: string(e.Name)}
+		if len(e.Keys) == 0 && rep&repKey != 0 {
+			pe.Key = map[string]string{}
+		}
 		if len(e.Keys) > 0 {
 			pe.Key = map[string]string{}
 			// insertion order varies from run to run as well
@@ -193,10 +232,7 @@ func mkTV(t *TVJ) *gpb.TypedValue {
 	case "bool":
 		return &gpb.TypedValue{Value: &gpb.TypedValue_BoolVal{BoolVal: t.B}}
 	case "bytes":
-		if t.NilBuf {
-			return &gpb.TypedValue{Value: &gpb.TypedValue_BytesVal{}}
-		}
-		return &gpb.TypedValue{Value: &gpb.TypedValue_BytesVal{BytesVal: []byte(t.S)}}
+		return &gpb.TypedValue{Value: &gpb.TypedValue_BytesVal{BytesVal: mkBytes(t.S, t.NilBuf)}}
 	case "float":
 		return &gpb.TypedValue{Value: &gpb.TypedValue_FloatVal{FloatVal: math.Float32frombits(uint32(t.Bits))}}
 	case "double":
@@ -207,6 +243,9 @@ func mkTV(t *TVJ) *gpb.TypedValue {
 		return &gpb.TypedValue{Value: &gpb.TypedValue_DecimalVal{}}
 	case "leaflist":
 		sa := &gpb.ScalarArray{}
+		if len(t.L) == 0 && rep&repList != 0 {
+			sa.Element = make([]*gpb.TypedValue, 0, 2)
+		}
 		for i := range t.L {
 			sa.Element = append(sa.Element, mkTV(&t.L[i]))
 		}
@@ -216,13 +255,13 @@ func mkTV(t *TVJ) *gpb.TypedValue {
 	case "any":
 		return &gpb.TypedValue{Value: &gpb.TypedValue_AnyVal{AnyVal: &anypb.Any{TypeUrl: "x"}}}
 	case "json":
-		return &gpb.TypedValue{Value: &gpb.TypedValue_JsonVal{JsonVal: []byte(t.S)}}
+		return &gpb.TypedValue{Value: &gpb.TypedValue_JsonVal{JsonVal: mkBytes(t.S, true)}}
 	case "jsonietf":
-		return &gpb.TypedValue{Value: &gpb.TypedValue_JsonIetfVal{JsonIetfVal: []byte(t.S)}}
+		return &gpb.TypedValue{Value: &gpb.TypedValue_JsonIetfVal{JsonIetfVal: mkBytes(t.S, true)}}
 	case "ascii":
 		return &gpb.TypedValue{Value: &gpb.TypedValue_AsciiVal{AsciiVal: string(t.S)}}
 	case "protobytes":
-		return &gpb.TypedValue{Value: &gpb.TypedValue_ProtoBytes{ProtoBytes: []byte(t.S)}}
+		return &gpb.TypedValue{Value: &gpb.TypedValue_ProtoBytes{ProtoBytes: mkBytes(t.S, true)}}
 	}
 	panic("mkTV: " + t.K)
 }
@@ -314,13 +353,19 @@ func mkScalar(x *ScalarJ) interface{} {
 		for i, s := range x.SS {
 			out[i] = string(s)
 		}
+		if len(out) == 0 && rep&repList != 0 {
+			return []string(nil)
+		}
 		return out
 	case "bytes":
-		return []byte(x.S)
+		return mkBytes(x.S, false)
 	case "list":
 		out := make([]interface{}, len(x.L))
 		for i := range x.L {
 			out[i] = mkScalar(&x.L[i])
+		}
+		if len(out) == 0 && rep&repList != 0 {
+			return []interface{}(nil)
 		}
 		return out
 	case "other":
@@ -469,6 +514,8 @@ func sameStrs(a, b []string) bool {
 // their copy after an unrelated path has been indexed (a shared buffer shows).
 func runIndex(c *Case, r *vh.Rand) {
 	var shared *gpb.Path
+	rep = c.Rep & repAll
+	defer func() { rep = 0 }()
 	if c.Reuse && c.P != nil && !c.P.Nil {
 		src := mkPath(c.P, r)
 		reusePath.Reset()
@@ -483,6 +530,8 @@ func runIndex(c *Case, r *vh.Rand) {
 	for i := 0; i < indexRuns; i++ {
 		in := shared
 		if i < indexRuns/2 && !c.Reuse {
+			// the same message in another in-memory representation of its empty slices / maps
+			rep = (c.Rep + i) & repAll
 			in = mkPath(c.P, r)
 		}
 		keep := clonePath(in)
@@ -528,9 +577,24 @@ func run(c *Case, r *vh.Rand) {
 			return path.CompletePath(pre, p)
 		}
 		c.Obs = append(c.Obs, guard(func() Res {
+			rep = c.Rep & repAll
+			defer func() { rep = 0 }()
 			pre, p := mkPath(c.Pre, r), mkPath(c.P, r)
 			kpre, kp := clonePath(pre), clonePath(p)
 			s1, err := call(pre, p)
+			// the same two messages, their empty slices / maps represented differently
+			for _, alt := range []int{repElem, repElement, repElem | repElement, repKey, repElem | repElement | repKey} {
+				rep = (c.Rep ^ alt) & repAll
+				apre, ap := mkPath(c.Pre, r), mkPath(c.P, r)
+				if !samePath(apre, pre) || !samePath(ap, p) {
+					return Res{R: "panic", Msg: "harness: representations are not proto.Equal"}
+				}
+				s2, err2 := call(apre, ap)
+				if (err == nil) != (err2 == nil) || (err == nil && !sameStrs(s1, s2)) {
+					return Res{R: "diff", Msg: fmt.Sprintf("proto.Equal inputs, representation %d vs %d: %q/%v vs %q/%v", c.Rep&repAll, rep, s1, err, s2, err2)}
+				}
+			}
+			rep = c.Rep & repAll
 			if err != nil {
 				if !samePath(kpre, pre) || !samePath(kp, p) {
 					return Res{R: "err", Msg: "input modified"}
@@ -570,6 +634,9 @@ func run(c *Case, r *vh.Rand) {
 				q := make(client.Path, len(g))
 				for i, s := range g {
 					q[i] = string(s)
+				}
+				if len(q) == 0 && c.Rep&repList != 0 {
+					q = nil
 				}
 				qs = append(qs, q)
 				keeps = append(keeps, append(client.Path{}, q...))
@@ -623,7 +690,16 @@ func run(c *Case, r *vh.Rand) {
 	case "fromto":
 		var tv *gpb.TypedValue
 		first := guard(func() Res {
+			rep = c.Rep & repAll
+			defer func() { rep = 0 }()
 			t, err := value.FromScalar(mkScalar(c.X))
+			for _, alt := range []int{repList, repBytes, repList | repBytes} {
+				rep = (c.Rep ^ alt) & repAll
+				t2, err2 := value.FromScalar(mkScalar(c.X))
+				if (err == nil) != (err2 == nil) || (err == nil && !proto.Equal(t, t2)) {
+					return Res{R: "diff", Msg: fmt.Sprintf("equal Go values (nil vs empty slices), representation %d vs %d: %v/%v vs %v/%v", c.Rep&repAll, rep, t, err, t2, err2)}
+				}
+			}
 			if err != nil {
 				return Res{R: "err", Msg: err.Error()}
 			}
@@ -647,37 +723,66 @@ func run(c *Case, r *vh.Rand) {
 	case "toscalar":
 		c.JSON = validJSON(c.T)
 		c.Obs = append(c.Obs, guard(func() Res {
-			v, err := value.ToScalar(mkTV(c.T))
+			defer func() { rep = 0 }()
+			one := func(rp int) (string, *ScalarJ, error) {
+				rep = rp & repAll
+				v, err := value.ToScalar(mkTV(c.T))
+				if err != nil {
+					return "err", nil, err
+				}
+				p := projScalar(v)
+				b, _ := json.Marshal(p)
+				return "ok:" + string(b), &p, nil
+			}
+			k, p, err := one(c.Rep)
+			for _, alt := range []int{repList, repBytes, repList | repBytes} {
+				if k2, _, _ := one(c.Rep ^ alt); k2 != k {
+					return Res{R: "diff", Msg: fmt.Sprintf("proto.Equal values, representation %d vs %d: %s vs %s", c.Rep&repAll, rep, k, k2)}
+				}
+			}
 			if err != nil {
 				return Res{R: "err", Msg: err.Error()}
 			}
-			p := projScalar(v)
-			return Res{R: "ok", Sc: &p}
+			return Res{R: "ok", Sc: p}
 		}))
 	case "equal":
 		eq := func(x, y *TVJ) Res {
 			return guard(func() Res {
-				a := mkTV(x)
-				b := mkTV(y)
-				if c.SamePtr {
-					b = a
+				defer func() { rep = 0 }()
+				var first bool
+				alts := []int{0, repList, repBytes, repList | repBytes}
+				for i, ra := range alts {
+					for j, rb := range alts {
+						rep = (c.Rep ^ ra) & repAll
+						a := mkTV(x)
+						rep = (c.Rep ^ rb) & repAll
+						b := mkTV(y)
+						if c.SamePtr {
+							b = a
+						}
+						var ka, kb *gpb.TypedValue
+						if a != nil {
+							ka = proto.Clone(a).(*gpb.TypedValue)
+						}
+						if b != nil {
+							kb = proto.Clone(b).(*gpb.TypedValue)
+						}
+						r1 := value.Equal(a, b)
+						r2 := value.Equal(a, b)
+						if r1 != r2 {
+							return Res{R: "diff", Msg: "two calls on the same operands differ"}
+						}
+						if (a != nil && !proto.Equal(ka, a)) || (b != nil && !proto.Equal(kb, b)) {
+							return Res{R: "err", Msg: "operand modified"}
+						}
+						if i == 0 && j == 0 {
+							first = r1
+						} else if r1 != first {
+							return Res{R: "diff", Msg: fmt.Sprintf("proto.Equal operands, representations %d/%d: %v, base: %v", ra, rb, r1, first)}
+						}
+					}
 				}
-				var ka, kb *gpb.TypedValue
-				if a != nil {
-					ka = proto.Clone(a).(*gpb.TypedValue)
-				}
-				if b != nil {
-					kb = proto.Clone(b).(*gpb.TypedValue)
-				}
-				r1 := value.Equal(a, b)
-				r2 := value.Equal(a, b)
-				if r1 != r2 {
-					return Res{R: "err", Msg: "two calls on the same operands differ"}
-				}
-				if (a != nil && !proto.Equal(ka, a)) || (b != nil && !proto.Equal(kb, b)) {
-					return Res{R: "err", Msg: "operand modified"}
-				}
-				return Res{R: "ok", Bool: r1}
+				return Res{R: "ok", Bool: first}
 			})
 		}
 		c.Obs = append(c.Obs, eq(c.A, c.B), eq(c.B, c.A))
@@ -813,6 +918,8 @@ func resTerm(r Res, ok func() string) string {
 		return "(ROk " + ok() + ")"
 	case "err":
 		return "RErr"
+	case "diff":
+		return "RDiff"
 	}
 	return "RPanic"
 }
@@ -1329,6 +1436,7 @@ type emitter struct {
 	meta  *vh.Meta
 	limit int
 	rnd   *vh.Rand
+	fixed bool // replay: keep the representation recorded in the case
 }
 
 func nontrivial(c *Case) bool {
@@ -1358,6 +1466,9 @@ func nontrivial(c *Case) bool {
 }
 
 func (e *emitter) add(c *Case) {
+	if !e.fixed && c.Family != "corpus" {
+		c.Rep = e.rnd.Intn(repAll + 1)
+	}
 	run(c, e.rnd)
 	e.cf.Add(caseTerm(e.cf.Names, c), c)
 	e.meta.Hist("kind:" + c.Kind)
@@ -1437,6 +1548,7 @@ func main() {
 	e := &emitter{dir: o.Out, cf: vh.NewCaseFile(), meta: meta, limit: 500, rnd: vh.NewRand(o.Seed ^ 0x5eed)}
 
 	if o.Replay != "" {
+		e.fixed = true
 		for _, c := range readCases(o.Replay) {
 			c := c
 			if c.Family == "" {
